@@ -441,7 +441,7 @@ namespace adept {
 	}
       }
       template <bool IsActive, typename Type>
-      typename internal::enable_if<!IsActive,ActiveReference<Type> >::type
+      typename internal::enable_if<!IsActive,Type&>::type
       get_reference(Index i, Index j, Index dim, Index offset, 
 		    Index gradient_index, Type* data) {
 	Index off = j-i;
